@@ -80,3 +80,64 @@ def convert_contract(literal, vtype):
 
 def all_contracts():
     return [convert_contract(lit, vt) for lit in (False, True) for vt in (str, int)]
+
+
+def const_convert_contract(cval):
+    """ConstProperty.convert_value (C13 / C14: "a const property accepts only its constant"): for a const of value `cval` (a string,
+    an integer or a boolean) and ANY JSON value offered as default: None -> None; the constant itself (same JSON type, same value)
+    -> a Value; anything else -- in particular a value python merely considers EQUAL (True for 1, 1.0 for 1, 0 for False) -> a
+    PropertyError.  No exception escapes."""
+    def make(I):
+        from openapi_python_client.parser.properties.const import ConstProperty as C
+        from openapi_python_client.parser.properties.protocol import Value
+        code = repr(cval) if isinstance(cval, str) else str(cval)
+        me = SObj(C, {"name": "c", "required": True, "default": None, "python_name": "c", "description": None, "example": None,
+                      "value": SObj(Value, {"python_code": code, "raw_value": cval})})
+        v = SV(z3.Const("value", I.Z.JV))
+        return SFunc("pyfunc", C.convert_value, self_val=me), [v], {}, {"value": v}
+
+    def pre(inputs, I):
+        r, t = I.Z.rec, inputs["value"].t
+        return z3.Or(r["none"](t), r["bool"](t), r["int"](t), r["flt"](t), r["str"](t))
+
+    def post(ctx):
+        from openapi_python_client.parser.errors import PropertyError
+        from openapi_python_client.parser.properties.protocol import Value
+        Z = ctx.Z
+        t = ctx.inputs["value"].t
+        r, acc = Z.rec, Z.acc
+        if isinstance(cval, bool):
+            same = z3.And(r["bool"](t), acc["b"](t) == cval)
+        elif isinstance(cval, int):
+            same = z3.And(r["int"](t), acc["i"](t) == cval)
+        else:
+            same = z3.And(r["str"](t), acc["s"](t) == z3.StringVal(cval))
+        # what the claim covers: values of another JSON type class (boolean / integer / string) and integers or booleans with
+        # another value.  (Whether str(1.0) differs from str(1), and repr() of strings, are assumed library functions: a number
+        # offered to an integer const and a string offered to a string const are left to the bounded stand-in enum_default.)
+        if isinstance(cval, bool):
+            other = z3.Or(r["int"](t), r["str"](t), z3.And(r["bool"](t), acc["b"](t) != cval))
+        elif isinstance(cval, int):
+            other = z3.Or(r["bool"](t), r["str"](t), z3.And(r["int"](t), acc["i"](t) != cval))
+        else:
+            other = z3.Or(r["bool"](t), r["int"](t), r["flt"](t))
+        res = ctx.value
+        if res is None:
+            return r["none"](t)
+        if isinstance(res, SV):
+            return z3.And(r["none"](t), res.t == t)
+        if isinstance(res, SObj) and res.cls is PropertyError:
+            return z3.Not(r["none"](t))
+        if isinstance(res, SObj) and res.cls is Value:
+            return z3.Not(other)
+        return False
+    cl = Clause("only-the-constant-itself", post,
+                statement=f"const {cval!r}: None -> None; a JSON value of another type class (boolean / integer / string) or another "
+                          f"integer / boolean is never accepted -- also not one python considers equal (True for 1, 0 for False)",
+                props=["C13", "C14"])
+    return FnContract(f"{P}.const:ConstProperty.convert_value",
+                      [Case(f"any-json[const {cval!r}]", make, [cl], pre=pre, raises=(), props=["C13", "C06", "C14"])])
+
+
+def const_contracts():
+    return [const_convert_contract(c) for c in ("k", 1, True, 0)]
